@@ -176,7 +176,18 @@ pub fn mod_n_from_hash(ha: &[u8]) -> U256 {
     r[6] = u64::from(carry2);
 
     r = u256_mul(&[r[5], r[6], 0, 0], &SM9_N_MINUS_ONE);
-    h = u256_sub(&[z[0], z[1], z[2], z[3]], &[r[0], r[1], r[2], r[3]]).0;
+    // Ha - q * (N - 1), kept with its fifth limb: the Barrett quotient q may be short by one or
+    // two, so the remainder still has to be brought below N - 1 before the final + 1
+    let (diff, borrow) = u256_sub(&[z[0], z[1], z[2], z[3]], &[r[0], r[1], r[2], r[3]]);
+    h = diff;
+    let mut hi = z[4].wrapping_sub(r[4]).wrapping_sub(borrow as u64);
+    for _ in 0..3 {
+        if hi != 0 || u256_cmp(&h, &SM9_N_MINUS_ONE) >= 0 {
+            let (d, b) = u256_sub(&h, &SM9_N_MINUS_ONE);
+            h = d;
+            hi = hi.wrapping_sub(b as u64);
+        }
+    }
     h = mod_n_add(&h, &SM9_ONE);
     h
 }
